@@ -5,6 +5,7 @@ pub mod c03;
 pub mod c04;
 pub mod c05;
 pub mod c06;
+pub mod c07;
 pub mod c08;
 pub mod c09;
 pub mod c10;
@@ -37,6 +38,7 @@ pub const PROPS: &[Prop] = &[
     Prop { id: "C04", run: c04::run, dbg_part: false, rule: c04::RULE, assumptions: c04::ASSUMPTIONS },
     Prop { id: "C05", run: c05::run, dbg_part: false, rule: c05::RULE, assumptions: c05::ASSUMPTIONS },
     Prop { id: "C06", run: c06::run, dbg_part: true, rule: c06::RULE, assumptions: c06::ASSUMPTIONS },
+    Prop { id: "C07", run: c07::run, dbg_part: true, rule: c07::RULE, assumptions: c07::ASSUMPTIONS },
     Prop { id: "C08", run: c08::run, dbg_part: false, rule: c08::RULE, assumptions: c08::ASSUMPTIONS },
     Prop { id: "C09", run: c09::run, dbg_part: true, rule: c09::RULE, assumptions: c09::ASSUMPTIONS },
     Prop { id: "C10", run: c10::run, dbg_part: true, rule: c10::RULE, assumptions: c10::ASSUMPTIONS },
